@@ -1,6 +1,7 @@
 package props
 
 import (
+	"math"
 	"context"
 	"encoding/json"
 	"fmt"
@@ -255,6 +256,10 @@ func (e mwEngine) Gen(t *rapid.T, tier string) any {
 				// boundaries of the configured windows +-2s, and far inside/outside
 				off := rapid.SampledFrom([]int64{0, -8, -12, 8, 12, -58, -62, 58, 62, -3598, -3602, 898, 902, -100000, 100000}).Draw(t, "offset")
 				ev.CreatedAt = now + off
+				if e.prop == "C17" && rapid.IntRange(0, 9).Draw(t, "extreme") == 0 {
+					// timestamps at the ends of the representable range
+					ev.CreatedAt = rapid.SampledFrom([]int64{math.MinInt64, math.MinInt64 + 1, math.MinInt64 + 1700000000, -1 << 62, -62135596801, -1, 0, 1 << 62, math.MaxInt64 - 62135596800, math.MaxInt64 - 1, math.MaxInt64}).Draw(t, "xts")
+				}
 				cl.Script = append(cl.Script, simrt.Op{Kind: "send", Msg: &simrt.Msg{T: "EVENT", Ev: &ev}})
 			case k == 10:
 				cl.Script = append(cl.Script, simrt.Op{Kind: "send", Msg: &simrt.Msg{T: "COUNT", Sub: rapid.SampledFrom(subs).Draw(t, "sub"), Filters: mkFilters()}})
@@ -364,6 +369,13 @@ func newMwState(s *MwSpec) *mwState {
 	return &mwState{spec: s, open: map[string]bool{}, win: &lruWin{size: s.N, ever: map[string]bool{}}}
 }
 
+// secsUntil is created_at minus now in seconds, in arithmetic that cannot
+// overflow (time.Time and time.Duration wrap or saturate at the ends of the
+// int64 range; the specification of the window does not).
+func secsUntil(createdAt int64, now time.Time) float64 {
+	return float64(createdAt) - float64(now.UnixNano())/1e9
+}
+
 func timeVerdict(f func(now time.Time) bool, t0, t1 time.Time) verdict {
 	a, b := f(t0), f(t1)
 	// +-1s safety margin around the moving boundary
@@ -419,20 +431,17 @@ func (st *mwState) client(m mocrelay.ClientMsg, t0, t1 time.Time) verdict {
 		}
 	case "lower":
 		if isEv {
-			c := time.Unix(ev.Event.CreatedAt, 0)
-			return timeVerdict(func(now time.Time) bool { return now.Sub(c) > time.Duration(s.N)*time.Second }, t0, t1)
+			return timeVerdict(func(now time.Time) bool { return -secsUntil(ev.Event.CreatedAt, now) > float64(s.N) }, t0, t1)
 		}
 	case "upper":
 		if isEv {
-			c := time.Unix(ev.Event.CreatedAt, 0)
-			return timeVerdict(func(now time.Time) bool { return c.Sub(now) > time.Duration(s.N)*time.Second }, t0, t1)
+			return timeVerdict(func(now time.Time) bool { return secsUntil(ev.Event.CreatedAt, now) > float64(s.N) }, t0, t1)
 		}
 	case "createdat":
 		if isEv {
-			c := time.Unix(ev.Event.CreatedAt, 0)
 			return timeVerdict(func(now time.Time) bool {
-				d := c.Sub(now)
-				return d < time.Duration(s.From)*time.Second || d > time.Duration(s.To)*time.Second
+				d := secsUntil(ev.Event.CreatedAt, now)
+				return d < float64(s.From) || d > float64(s.To)
 			}, t0, t1)
 		}
 	case "allow":
